@@ -101,7 +101,10 @@ func rawRequest(addr, method, target string, headers []string, body []byte) resp
 	return response{status: resp.StatusCode, body: rb}
 }
 
-const secret = "Bearer s3cr3t-Token"
+// the configured authorization value of the case (run picks it)
+var secret = "Bearer s3cr3t-Token"
+
+var secrets = []string{"Bearer s3cr3t-Token", "Bearer s3cr3t-Token", "Bearer s3cr3t,", `Digest username="x", response="y"`, "tok-a,tok-b", "Basic dXNlcjpwYXNz"}
 
 type authCase struct {
 	class   string
@@ -122,6 +125,9 @@ func authCases() []authCase {
 		{"empty", []string{"Authorization: "}, false},
 		{"other-header", []string{"X-Authorization: " + secret, "Cookie: " + secret}, false},
 		{"two-wrong-first", []string{"Authorization: nope", "Authorization: " + secret}, false}, // ambiguous: not counted as valid, nor asserted
+		// pieces of a value that holds commas are not the value
+		{"comma-piece-first", []string{"Authorization: " + strings.TrimSpace(strings.SplitN(secret+",", ",", 2)[0])}, !strings.Contains(secret, ",")},
+		{"comma-piece-last", []string{"Authorization: " + strings.TrimSpace(secret[strings.LastIndex(secret, ",")+1:])}, !strings.Contains(secret, ",")},
 	}
 }
 
@@ -139,6 +145,7 @@ func run(c *harness.Ctx, i int) {
 	useAuth := rng.Intn(3) != 0
 	authVia := []string{"flag", "env"}[rng.Intn(2)]
 	skipVerifyRead := rng.Intn(2) == 0
+	secret = secrets[rng.Intn(len(secrets))]
 	proxied := server == "index" && via == "handler" && rng.Intn(3) == 0
 	if proxied {
 		via = "handler-http-upstream"
